@@ -223,7 +223,10 @@ func Scenarios(tier string) []*Scenario {
 // SlotMenu: C02 — deviations that shape slot/epoch processing: gaps and registry-changing blocks.
 func SlotMenu(n *Node, slot uint64) []Choice {
 	keep := map[string]bool{"skip": true, "atts:none": true, "sync:none": true, "exits(3)": true, "attester-slashing(3 validators)": true, "atts:just-below-2/3": true,
-		"atts:wrong-target": true, "atts:wrong-head": true, "sync:half": true}
+		"atts:wrong-target": true, "atts:wrong-head": true, "sync:half": true,
+		// the same vote included again later (other timeliness flags for the same validator; at the altair upgrade the
+		// pending attestations of both inclusions are translated)
+		"atts:delay-2": true, "atts:delay-3": true}
 	var out []Choice
 	for _, c := range FullMenu(n, slot) {
 		if keep[c.String()] {
